@@ -29,6 +29,18 @@ CHECKS = {
          "Complete enumeration of the criterion-presence x match-relation domain for all three filter kinds against 9 payloads, plus random exploration of larger filter lists and of whole files for the serde round trip and iter_payload.",
          "Reference predicate written from the statement; serde_json is trusted as the JSON reader/writer.",
          "DESIGN.md §3 C15"),
+ "C03": ("PBT against an independent interval-set model (iset.rs) over every public entry point (FromIterator, builders, FromStr incl. hostile text, serde, DER written by the library and by the harness, set operations, Refuse/Trim issuance, resource limits, prefix decomposition) + complete enumeration of all sequences of <=3 blocks and all pairs of sets over 8-point domains with a bitmap oracle",
+         "Random exploration with forced classes (bridging, adjacent, nested, touching 0/max, dotted-quad IPv6) checks canonical form and denotation of every obtained collection against the model; two exhaustive enumerations over small domains per family decide construction and all pair operations there completely (bitmap oracle, the model itself is cross-checked against it on every run).",
+         "The interval model and its bitmap self-test are trusted; inverted (min>max) pairs are generated only for text and DER, not for the unchecked in-memory constructors (documented as caller precondition).",
+         "DESIGN.md §3 C03"),
+ "C12": ("exhaustive enumeration over a small alphabet (all strings to length 7/9 into every parser, all ordered pairs and triples of accepted rsync URIs, all join arguments to length 6/8) + random structured URIs; oracles: text-level reference model of scheme/authority/module/path, reference equality, algebraic laws of join/parent/relative_to/is_parent_of",
+         "Complete enumeration of the stated small-alphabet domain (parse, pairs, triples, join) plus random exploration beyond it (long hosts, ports, mixed case, deep paths, forbidden and non-ASCII bytes). Three-valued acceptance oracle (must accept conventional authorities / must reject forbidden shapes / don't care) so the check never demands more than the statement.",
+         "Reference model of the RFC 3986 subset documented in uri.rs; unusual-but-accepted authorities are don't-care for acceptance but must obey all laws once accepted.",
+         "DESIGN.md §3 C12"),
+ "C17": ("exhaustive enumeration: every day of years 1-9999 x boundary seconds (+ all seconds of selected days) against an independent days-from-civil calendar and renderer; all single/double (triple) substitutions, insertions, deletions over 40 valid time strings with a three-valued acceptance oracle; all (not-before, not-after, now) triples over boundary instants; serial pairs over boundary values + random serials and decimal strings",
+         "Complete enumeration by day and over the near-valid string neighbourhoods, validity triples and serial boundary pairs; random exploration for 20-octet serials and decimal text. Encoding is compared byte-for-byte with the harness' own rendering, decoding with its own calendar.",
+         "Own proleptic Gregorian calendar in the harness; year 0000 and second 60 are don't-care; chrono is only used by the library.",
+         "DESIGN.md §3 C17"),
 }
 PENDING = {}
 ALL = ["C%02d" % i for i in range(1, 18)]
